@@ -6,6 +6,7 @@ import (
 	"fmt"
 	"go/token"
 	"go/types"
+	"sort"
 
 	"golang.org/x/tools/go/ssa"
 )
@@ -23,6 +24,7 @@ func (x *Exec) loopInvariants(st *State, fr *Frame, l *Loop, phase string, assum
 	key := x.loopKey(fr, l)
 	ls := x.P.specs.Loops[key]
 	snap := fr.loopSnap[l.Head]
+	fr.curLoop = l
 	env := &Env{st: st, vars: map[string]Val{}, pkg: x.pkgOf(fr.fn), old: x.entry, fr: fr}
 	if fr.parent != nil {
 		env.old = snap // inlined callee: old() refers to loop entry (no own pre-state)
@@ -539,6 +541,71 @@ func (x *Exec) cellWrittenIn(a *ssa.Alloc, l *Loop, sameFrame bool) bool {
 		return false
 	}
 	return uses(a, 0)
+}
+
+// lookupPhi resolves a name to the loop-carried value of a loop that is currently cut:
+// a phi whose comment is the name, or a range key (rangeindex+1 = number of elements done).
+func (x *Exec) lookupPhi(fr *Frame, name string, st *State) (Val, bool) {
+	li := x.P.loopInfo(fr.fn)
+	cur := fr.curLoop
+	if cur == nil {
+		return Val{}, false
+	}
+	// candidate loop heads: the loop being cut, then its enclosing loops (inner to outer)
+	heads := []*ssa.BasicBlock{cur.Head}
+	var encl []*Loop
+	for _, l := range li.ByOrd {
+		if l != cur && l.Blocks[cur.Head] {
+			encl = append(encl, l)
+		}
+	}
+	sort.Slice(encl, func(a, b int) bool { return len(encl[a].Blocks) < len(encl[b].Blocks) })
+	for _, l := range encl {
+		heads = append(heads, l.Head)
+	}
+	for _, h := range heads {
+		for _, in := range h.Instrs {
+			ph, ok := in.(*ssa.Phi)
+			if !ok {
+				continue
+			}
+			if ph.Comment == name {
+				if v, ok := fr.vals[ph]; ok {
+					return v, true
+				}
+			}
+		}
+	}
+	// range key: DebugRef of name bound to (rangeindex + 1)
+	for _, b := range fr.fn.Blocks {
+		for _, in := range b.Instrs {
+			dr, ok := in.(*ssa.DebugRef)
+			if !ok || dr.IsAddr || dr.Object() == nil || dr.Object().Name() != name {
+				continue
+			}
+			bo, ok := dr.X.(*ssa.BinOp)
+			if !ok || bo.Op != token.ADD {
+				continue
+			}
+			ph, ok := bo.X.(*ssa.Phi)
+			if !ok || ph.Comment != "rangeindex" {
+				continue
+			}
+			inScope := false
+			for _, h := range heads {
+				if ph.Block() == h {
+					inScope = true
+				}
+			}
+			if !inScope {
+				continue
+			}
+			if v, ok := fr.vals[ph]; ok {
+				return Val{K: KInt, T: plus(v.T, "1"), Typ: types.Typ[types.Int]}, true
+			}
+		}
+	}
+	return Val{}, false
 }
 
 // lookupLocal resolves a source-level local variable name to its current value.
